@@ -174,7 +174,7 @@ def run(tier: str) -> int:
     t = Timer()
     rep = Reporter(PROP)
     wd = workdir(PROP)
-    os.environ["COLUMNS"] = "400"
+    os.environ.pop("COLUMNS", None)  # check's output is captured: the console is the default 80 columns wide, as in a hook or in CI
     dirs, files = U.universe_paths(b["depth"])
     rng = random.Random(seed() * 47 + 12)
     d1 = [d for d in dirs if len(d) == 1 and not d[0].startswith(".")]
